@@ -928,8 +928,8 @@ impl Context {
         // Promote untyped enum values to typed in parent scope
         let mut replacements = 0;
         for (name, _) in &enum_values {
+            // The name may also be used by functions - which an enum value does not conflict with
             let symbols = self.scopes[parent_scope].symbols.get_mut(name).unwrap();
-            assert_eq!(symbols.len(), 1);
             for symbol in symbols {
                 if let ScopeSymbol::EnumValueUntyped(id) = symbol {
                     *symbol = ScopeSymbol::EnumValue(*id);
@@ -1301,7 +1301,7 @@ impl Context {
 
         if let Some(symbols) = scope.symbols.get(&name.node) {
             for symbol in symbols {
-                debug_assert!(overloads.is_empty() || matches!(symbol, ScopeSymbol::Function(_)));
+                // A value or type may share a name with (intrinsic) functions - the value hides them
                 match symbol {
                     ScopeSymbol::Function(id) => overloads.push(*id),
                     ScopeSymbol::ConstantBuffer(_) => {}
